@@ -597,7 +597,7 @@ def lib_mean(ev, args, kw, st, node):
     v = args[0]
     s = lib_sum(ev, args, kw, st, node)
     ev.need("mean of a non-empty array", st, v.n > 0, node)
-    return Num(s.real() / z3.ToReal(v.n))
+    return Num(core.real_div(s.real(), z3.ToReal(v.n)))
 
 
 def sqrt_term(ev, x, st):
@@ -715,6 +715,28 @@ def _lam(node):
     return [a.arg for a in node.args.args], node.body
 
 
+def mk_forall(vs, rng, body):
+    """forall vs. rng => body, with directly nested universal quantifiers merged into one prefix
+    (one multi-variable quantifier is much friendlier to E-matching than nested ones)."""
+    body = z3.simplify(body) if False else body
+    if z3.is_quantifier(body) and body.is_forall() and body.num_patterns() == 0:
+        inner = [z3.Const(fresh_name(body.var_name(i)), body.var_sort(i)) for i in range(body.num_vars())]
+        b = z3.substitute_vars(body.body(), *reversed(inner))
+        if z3.is_implies(b):
+            return z3.ForAll(list(vs) + inner, z3.Implies(z3.And(rng, b.arg(0)), b.arg(1)))
+        return z3.ForAll(list(vs) + inner, z3.Implies(rng, b))
+    return z3.ForAll(list(vs), z3.Implies(rng, body))
+
+
+def scoped(ev, body, s2, vs):
+    from . import values
+    values.SCOPE.extend(vs)
+    try:
+        return b2t(ev.ev(body, s2))
+    finally:
+        del values.SCOPE[len(values.SCOPE) - len(vs):]
+
+
 @spec("forall")
 def sp_forall(ev, node, st):
     lo = as_num(ev.ev(node.args[0], st)).t
@@ -725,7 +747,7 @@ def sp_forall(ev, node, st):
     for nm, v in zip(names, vs):
         s2.env[nm] = Num(v)
     rng = z3.And(*[z3.And(lo <= v, v < hi) for v in vs])
-    return BoolV(z3.ForAll(vs, z3.Implies(rng, b2t(ev.ev(body, s2)))))
+    return BoolV(mk_forall(vs, rng, scoped(ev, body, s2, vs)))
 
 
 @spec("forall2")
@@ -738,7 +760,7 @@ def sp_forall2(ev, node, st):
     s2 = State(dict(st.env), st.pc)
     s2.env[names[0]] = Num(a)
     s2.env[names[1]] = Num(b)
-    return BoolV(z3.ForAll([a, b], z3.Implies(z3.And(lo <= a, a < b, b < hi), b2t(ev.ev(body, s2)))))
+    return BoolV(z3.ForAll([a, b], z3.Implies(z3.And(lo <= a, a < b, b < hi), scoped(ev, body, s2, [a, b]))))
 
 
 @spec("exists")
@@ -751,7 +773,7 @@ def sp_exists(ev, node, st):
     for nm, v in zip(names, vs):
         s2.env[nm] = Num(v)
     rng = z3.And(*[z3.And(lo <= v, v < hi) for v in vs])
-    return BoolV(z3.Exists(vs, z3.And(rng, b2t(ev.ev(body, s2)))))
+    return BoolV(z3.Exists(vs, z3.And(rng, scoped(ev, body, s2, vs))))
 
 
 @spec("implies")
@@ -856,11 +878,14 @@ def sp_sum(ev, node, st):
     lo = as_num(ev.ev(node.args[0], st)).t
     hi = as_num(ev.ev(node.args[1], st)).t
     names, body = _lam(node.args[2])
-    k = z3.Int(fresh_name(names[0]))
     s2 = State(dict(st.env), st.pc)
-    s2.env[names[0]] = Num(k)
-    t = as_num(ev.ev(body, s2)).t
-    return Num(sum_term(z3.Lambda([k], t), lo, hi))
+
+    def elem(k):
+        s2.env[names[0]] = Num(k)
+        return as_num(ev.ev(body, s2))
+    probe = elem(z3.Int(fresh_name("probe")))
+    seq = Seq.from_fn(hi, INT if probe.is_int else REAL, elem)
+    return Num(sum_term(seq.arrs[0], lo, hi))
 
 
 @spec("SumRange")
